@@ -28,8 +28,17 @@ var extraRules = map[string][]func(r *R){}
 func register(id string, patterns []string, run func(r *R)) {
 	props[id] = &propDef{id, patterns, func(r *R) {
 		run(r)
+		n0 := len(r.ruleSeq)
 		for _, f := range extraRules[id] {
 			f(r)
+		}
+		if len(r.ruleSeq) > n0 && r.Explain != "" {
+			// rules added in later rounds describe themselves: their one-line statements are part of the explanation
+			var extra []string
+			for _, rid := range r.ruleSeq[n0:] {
+				extra = append(extra, "("+strings.TrimPrefix(rid, id+"-")+") "+r.RuleDocs[rid])
+			}
+			r.Explain += " Further clauses decided by rules added after the seeded-change rounds: " + strings.Join(extra, "; ") + "."
 		}
 		hygiene(r)
 	}}
